@@ -514,6 +514,17 @@ def gen_join_frames(rng, ts, stats, missing=None, big=False, str_dtype=None, non
     lname, rname = rng.choice([('attr', 'attr'), ('name', 'title'), ('a b', 'c')])
     lkey, rkey = rng.choice([('id', 'id'), ('lid', 'rid')])
     L = make_frame(rng, lv, attr=lname, key=lkey, str_dtype=str_dtype)
+    c = rng.random()
+    if c < 0.07 and nl > 0:
+        # a self-join: the SAME DataFrame object as left and right table — on one column (de-duplication) or matching one
+        # column against another (name against alias)
+        if c < 0.03:
+            stats.hit('frames.self_join.same_column')
+            return L, L, lkey, lkey, lname, lname
+        other = (rv + lv)[:nl]
+        L['alias'] = pd.Series(other, dtype='str' if str_dtype else object, index=L.index)
+        stats.hit('frames.self_join.other_column')
+        return L, L, lkey, lkey, lname, 'alias'
     R = make_frame(rng, rv, attr=rname, key=rkey, str_dtype=str_dtype)
     return L, R, lkey, rkey, lname, rname
 
@@ -681,6 +692,10 @@ def suite_filter_tables(rng, n, stats, kinds=None):
         lo, ro = choose_out_attrs(rng, L, lk, la), choose_out_attrs(rng, R, rk, ra)
         L0, R0, la0, ra0 = L, R, la, ra
         L, R, lk, rk, la, ra, _c, _a, _b, bad = malform(rng, stats, L, R, lk, rk, la, ra)
+        if rng.random() < 0.5:
+            lo, bad = malform_out(rng, stats, L, lo, bad)
+        else:
+            ro, bad = malform_out(rng, stats, R, ro, bad)
         nj = rng.choice([1, 1, 2, 3, -1, 50])
         kw = {'l_out_attrs': lo, 'r_out_attrs': ro, 'n_jobs': nj, 'show_progress': False}
         oss = False
@@ -787,6 +802,18 @@ def malform(rng, stats, L, R, lk, rk, la, ra, C=None, clk=None, crk=None, numeri
     return L, R, lk, rk, la, ra, C, clk, crk, k
 
 
+def malform_out(rng, stats, T, out, bad, p=0.05):
+    """C15 malformed stream for the output-attribute lists: ONE unknown name, alone or (mostly) next to names that do
+    exist in the table, at any position — the list is invalid as soon as one of its names is unknown"""
+    if bad is not None or not isinstance(T, pd.DataFrame) or rng.random() > p:
+        return out, bad
+    good = [rng.choice(list(T.columns)) for _ in range(rng.choice([0, 1, 1, 2]))]
+    lst = good + ['no_such_out_attr']
+    rng.shuffle(lst)
+    stats.hit('malformed.bad_out_mixed' if good else 'malformed.bad_out_alone')
+    return lst, 'bad_out_mixed'
+
+
 def suite_filter_candset(rng, n, stats, kinds=None):
     cases = []
     for _ in range(n):
@@ -861,6 +888,10 @@ def suite_apply_matcher(rng, n, stats):
         op = rng.choice(['>=', '>', '<=', '<', '=', '!='])
         am = rng.random() < 0.4
         lo, ro = choose_out_attrs(rng, L0, lk, la0), choose_out_attrs(rng, R0, rk, ra0)
+        if rng.random() < 0.5:
+            lo, bad = malform_out(rng, stats, L, lo, bad)
+        else:
+            ro, bad = malform_out(rng, stats, R, ro, bad)
         oss = rng.random() < 0.7
         nj = rng.choice([1, 1, 2, 3, -1, 50])
         if nj != 1:
@@ -918,7 +949,7 @@ def norm_scores(resp):
 
 DOCUMENTED_EXCEPTION = {'dup_l_key': 'AssertionError', 'numeq_l_key': 'AssertionError', 'nan_r_key': 'AssertionError', 'bad_l_attr': 'AssertionError', 'bad_r_key': 'AssertionError',
                         'numeric_r_attr': 'AssertionError', 'not_frame_l': 'TypeError', 'bad_cand_key': 'AssertionError', 'not_frame_cand': 'TypeError',
-                        'empty_cand_dup_key': 'AssertionError', 'empty_cand_nan_key': 'AssertionError'}
+                        'empty_cand_dup_key': 'AssertionError', 'empty_cand_nan_key': 'AssertionError', 'bad_out_mixed': 'AssertionError'}
 
 
 def malformed_accepted(cases):
